@@ -278,6 +278,7 @@ func (db *Database) SearchUniversal(query string, options SearchOptions) []Searc
 	if options.Limit <= 0 {
 		options.Limit = 10
 	}
+	options.Limit = capLimit(options.Limit, len(db.Commands))
 
 	terms := normalizeAndTokenize(query)
 	var pq *nlp.ProcessedQuery
